@@ -684,7 +684,6 @@ class Node:
 
         children = self._children
         if children is None:
-            assert before in (None, True, int, False)
             self._children = [node]
         elif isinstance(before, int):
             children.insert(before, node)
@@ -821,7 +820,6 @@ class Node:
 
         target_siblings = new_parent._children
         if target_siblings is None:
-            assert before in (None, True, False, 0), before
             new_parent._children = [self]  # type: ignore
         elif isinstance(before, Node):
             assert before._parent is new_parent, before
